@@ -418,15 +418,18 @@ class Dataset:
         :return: the unified rankings of the Dataset within a new Ranking List
 
         """
-        copy_rankings: List[Ranking] = copy.deepcopy(self.rankings)
         all_elements: Set[Element] = set(self._mapping_element_id.keys())
+        unified_rankings: List[Ranking] = []
 
-        for ranking in copy_rankings:
+        for ranking in self.rankings:
+            # a new Ranking is built so that its positions, domain and size take the added bucket into account
+            buckets: List[Set[Element]] = copy.deepcopy(ranking.buckets)
             missing_elements: Set[Element] = all_elements - ranking.domain
             if missing_elements:
-                ranking.buckets.append(missing_elements)
+                buckets.append(missing_elements)
+            unified_rankings.append(Ranking(buckets))
 
-        return copy_rankings
+        return unified_rankings
 
     def unified_dataset(self):
         """
